@@ -591,8 +591,22 @@ class _CartInner(_CartLoop):
     inner = True
 
 
+def _directed_cartesian():
+    """concrete lattices (conventions of rt/oracles_grid.grid_cartesian): full block, holes, flagged cells, shuffled cell order"""
+    fam = []
+    for a, h in (([0.0, 0.0], 0.1), ([-125.4, 31.5], 0.1)):
+        for cells, mask in (([[x, y] for x in range(3) for y in range(2)], None), ([[0, 0], [2, 1], [1, 0], [0, 1], [2, 0]], [1, 1, 1, 1, 0]),
+                            ([[2, 2], [0, 0], [1, 0], [0, 2]], None)):
+            lat = {'anchor': a, 'dh': h, 'cells': cells}
+            if mask:
+                lat['mask'] = mask
+            fam.append(('grid_cartesian', dict(lattice=lat)))
+    return fam
+
+
 @contract
 class GetCartesian:
+    directed = staticmethod(_directed_cartesian)
     qualname = 'csep.core.regions.CartesianGrid2D.get_cartesian'
     case = 'region satisfying RI, one value per cell'
     properties = ('C01',)
